@@ -349,7 +349,7 @@ func c36Build(t *testing.T, base string) *c36Corpus {
 		c.dirs[v] = filepath.Join(base, []string{"payload", "benign"}[v])
 		os.MkdirAll(c.dirs[v], 0o755)
 	}
-	pay := 0
+	pay := (int(verifkit.Seed()) + verifkit.EnvInt("VERIF_C36_ROT", 0)) % len(c36Payloads) // which payload lands at which site depends on the seed
 	next := func() int { pay++; return pay - 1 }
 	// URL templates are parsed as text/template by the builder: no payload with "{{" there
 	nextTpl := func() int {
